@@ -213,6 +213,9 @@ func genMisroute(g *Rng, tier string) *Plan {
 		if g.Bool(0.15) {
 			a.Encrypt, a.EncryptTo, a.Sign = true, 1, true
 		}
+		if g.Bool(0.25) {
+			spec.Pretty, a.Pretty = true, true
+		}
 		spec.Assertions = []AsrtSpec{a}
 		st.Spec = spec
 		if st.Entry == "artifact" {
